@@ -25,7 +25,8 @@ META = {
 
 CONST_OPS = ['FULLY_CONNECTED', 'CONV_2D', 'DEPTHWISE_CONV_2D', 'BATCH_MATMUL',
              'EMBEDDING_LOOKUP', 'ADD', 'SUB', 'MUL', 'CONCATENATION', 'RESHAPE',
-             'TANH', 'RELU']
+             'TANH', 'RELU', 'MAXIMUM', 'MAXIMUM']   # MAXIMUM: an op the quantizer
+                                                     # does not know, with a constant operand
 
 
 @st.composite
